@@ -43,6 +43,8 @@ class Renderer:
         g, o = self.kind.get(name, (None, None))
         if g in ("inputs", "outputs"):
             return f"self.{name}"
+        if o is not None and o.get("pyref"):
+            return o["pyref"]
         return name
 
     def const(self, v, w=None):
@@ -218,6 +220,11 @@ class Renderer:
         L = [HEADER]
         for h in sp.get("helpers", []):
             L += self.helper_src(h) + [""]
+        for rc in sp.get("records", []):
+            L.append(f"class {rc['cls']}(std.Record):")
+            for m in rc["members"]:
+                L.append(f"    {m['field']}: {self.ty(self.kind[m['obj']][1])}")
+            L.append("")
         L.append("class Top(Entity):")
         ctx = sp["ctx"]
         if ctx["type"] in ("seq", "coro"):
@@ -233,13 +240,18 @@ class Renderer:
         for o in sp.get("sigs", []):
             L.append(f"    x_{o['name']} = Port.output({self.ty(o)})")
         L.append("    def architecture(self):")
+        for rc in sp.get("records", []):
+            args = ", ".join(f"{m['field']}={self.dflt(self.kind[m['obj']][1])}" for m in rc["members"])
+            L.append(f"        {rc['name']} = std.{rc['qual']}[{rc['cls']}]({args})")
         for o in sp.get("sigs", []):
+            if o.get("pyref"):
+                continue
             extra = ", noreset=True" if o.get("noreset") else ""
             L.append(f"        {o['name']} = Signal[{self.ty(o)}]({self.dflt(o)}, name='{o['name']}'{extra})")
         for o in sp.get("vars", []):
             extra = ", noreset=True" if o.get("noreset") else ""
             L.append(f"        {o['name']} = Variable[{self.ty(o)}]({self.dflt(o)}, name='{o['name']}'{extra})")
-        nl = [o["name"] for o in sp.get("sigs", []) + sp.get("vars", [])]
+        nl = [o["name"] for o in sp.get("sigs", []) + sp.get("vars", []) if not o.get("pyref")]
         nonlocal_line = ("            nonlocal " + ", ".join(nl)) if nl else None
         for sub in sp.get("subs", []):
             L.append(f"        async def {sub['name']}({', '.join(sub['params'])}):")
@@ -275,7 +287,7 @@ class Renderer:
             L.append("        @std.concurrent")
             L.append("        def export():")
             for o in sp["sigs"]:
-                L.append(f"            self.x_{o['name']} <<= {o['name']}")
+                L.append(f"            self.x_{o['name']} <<= {self.ref(o['name'])}")
         return "\n".join(L) + "\n"
 
     def dflt(self, o):
@@ -819,6 +831,15 @@ def design(draw, flavor, reset=None, max_stmts=5, depth=2):
         for i in range(draw(st.integers(0, 2))):
             kind = draw(st.sampled_from(["u", "u", "bit"]))
             vars_.append({"name": f"v{kind[0]}{i}", "kind": kind, "default": draw(dflt(kind, False))})
+    records = []
+    if flavor in ("seq", "coro") and draw(st.integers(0, 3)) == 0:
+        # members of a std.Record signal (resettable or marked noreset as a whole)
+        qual = draw(st.sampled_from(["Signal", "NoresetSignal"]))
+        nr = qual == "NoresetSignal"
+        sigs.append({"name": "ra0", "kind": "u", "default": draw(dflt("u", False)), "pyref": "rc0.a", "noreset": nr})
+        sigs.append({"name": "rb0", "kind": "bit", "default": draw(dflt("bit", False)), "pyref": "rc0.b", "noreset": nr})
+        records.append({"name": "rc0", "cls": "Rec0", "qual": qual,
+                        "members": [{"field": "a", "obj": "ra0"}, {"field": "b", "obj": "rb0"}]})
     if flavor in ("seq", "coro") and draw(st.integers(0, 2)) == 0:
         vars_.append({"name": "vq0", "kind": "bool", "default": draw(st.integers(0, 1))})
     if flavor in ("seq", "coro") and draw(st.integers(0, 2)) == 0:
@@ -827,7 +848,7 @@ def design(draw, flavor, reset=None, max_stmts=5, depth=2):
         if draw(st.integers(0, 2)) == 0:
             outputs[-1]["noreset"] = True  # excluded from reset, but still returns to its default after a push
     spec = {"W": W, "inputs": inputs, "outputs": outputs, "sigs": sigs, "vars": vars_,
-            "ctx": {"type": flavor, "reset": reset}, "helpers": [], "subs": []}
+            "ctx": {"type": flavor, "reset": reset}, "helpers": [], "subs": [], "records": records}
     if flavor != "conc" and draw(st.integers(0, 1)) == 0:
         spec["helpers"] = [draw(helper_def(0, W))]
     env = Env(spec, flavor)
